@@ -6,7 +6,7 @@ V = Path(__file__).resolve().parent.parent
 e = json.loads((V / "harness" / "manifest_entries.json").read_text())
 for pid in sys.argv[1:]:
     m = json.loads((V / "notes" / f"{pid}.manifest.json").read_text())
-    e["claimed"] = [c for c in e["claimed"] if c["id"] != pid] + [{"id": pid, "text": m["text"], "note": m["note"]}]
+    e["claimed"] = [c for c in e["claimed"] if c["id"] != pid] + [{"id": pid, "text": m["text"], "note": m["note"], **({"technique": m["technique"]} if "technique" in m else {})}]
     e["not_applicable"] = [x for x in e["not_applicable"] if x["property_id"] != pid]
 e["claimed"].sort(key=lambda c: c["id"])
 (V / "harness" / "manifest_entries.json").write_text(json.dumps(e, indent=1))
